@@ -20,6 +20,7 @@ RULE = ('Cases: (a) modules generated as stdlib ast trees by vf.gen.progs (all s
         'Oracle: compile(S) ok => minify(S,O) returns str and compile(result) ok; ast.parse(S) raises E => minify raises '
         'the same class E. Non-trivial: compilable side has >=10 AST nodes and output text != input text; '
         'parse-failure side is one edit away from a compilable source. Distinct = sha256(source, options, interpreter).')
+RULE += ' About 190 fixed version-sensitive spellings run in every interpreter; a coverage-guided byte fuzz step (atheris) runs this oracle inside the target.'
 ASSUMPTIONS = ['compile() of the running interpreter defines "valid module"',
                'AST nesting depth bounded (the visitors are recursive; recursion limit is the caller\'s setting)',
                'sources that parse but do not compile carry no obligation']
